@@ -385,6 +385,7 @@ func init() {
 		}
 	}
 	registerFmt()
+	registerJSON()
 	registerReflect()
 	registerMisc()
 }
